@@ -134,6 +134,18 @@ Section WithBunzip.
         recv_chunks k' e protocol (c :: acc)
     end.
 
+  (* what is made of the collected split packets (first received one first) *)
+  Definition reassemble (l : list split_packet) : M (N * bytes) :=
+    let sorted := sort_splits l in
+    if negb (numbered_from 0 sorted) then mfail PacketBad
+    else match sorted with
+         | [] => mfail PacketBad
+         | main :: rest =>
+             let whole := sp_payload main ++ flat_map sp_payload rest in
+             do* payload := get_payload main whole in
+             mlift (packet_from payload)
+         end.
+
   (* ValveProtocol::receive *)
   Definition receive (e : engine) (protocol : N) : M (N * bytes) :=
     do* data := udp_recv (Some packet_size) in
@@ -142,17 +154,8 @@ Section WithBunzip.
     | header :: _ =>
         if header =? 254 then
           do* first := mlift (fst (split_new e protocol (buf_new data))) in
-          let total := sp_total first in
-          do* others := recv_chunks (N.to_nat total - 1) e protocol [] in
-          let sorted := sort_splits (first :: others) in
-          if negb (numbered_from 0 sorted) then mfail PacketBad
-          else match sorted with
-               | [] => mfail PacketBad
-               | main :: rest =>
-                   let whole := sp_payload main ++ flat_map sp_payload rest in
-                   do* payload := get_payload main whole in
-                   mlift (packet_from payload)
-               end
+          do* others := recv_chunks (N.to_nat (sp_total first) - 1) e protocol [] in
+          reassemble (first :: others)
         else mlift (packet_from data)
     end.
 
